@@ -100,8 +100,26 @@ func runC20(c *core.Ctx) {
 			}
 			isReturned := false
 			for _, s := range sinks {
-				if ret, ok := s.Instr.(*ssa.Return); ok && okid && sameValue(base, ret.Results[0]) {
-					isReturned = true
+				if ret, ok := s.Instr.(*ssa.Return); ok && okid {
+					if sameValue(base, ret.Results[0]) {
+						isReturned = true
+					}
+					// single-exit form: `accepted` is nil on the failing branches and the message otherwise
+					if _, isPhi := ret.Results[0].(*ssa.Phi); isPhi {
+						all, n := true, 0
+						for _, l := range eng.PhiLeaves(nil, ret.Results[0]) {
+							if ir.IsNilConst(l) {
+								continue
+							}
+							n++
+							if !sameValue(base, l) {
+								all = false
+							}
+						}
+						if all && n > 0 {
+							isReturned = true
+						}
+					}
 				}
 			}
 			c.Decide(okid && idf == wantField && isReturned, "C20.id-is-message-id", fn, "done-marker id = <returned message>."+wantField, c.P.Rel(p.Pos()),
